@@ -373,7 +373,7 @@ func TestVerifReplay(t *testing.T) {
 	replace[filepath.Join(repo, pkgDir, "zz_verif_replay_test.go")] = testFile
 	ov := filepath.Join(genDir, "overlay_"+f.Harness+".json")
 	writeJSON(ov, map[string]any{"Replace": replace})
-	cmd := exec.Command("go1.26.8", "test", "-vet=off", "-count=1", "-overlay", ov, "-run", "^TestVerifReplay$", "-timeout", "60s", "./"+pkgDir+"/")
+	cmd := exec.Command("go1.26.8", "test", "-v", "-vet=off", "-count=1", "-overlay", ov, "-run", "^TestVerifReplay$", "-timeout", "60s", "./"+pkgDir+"/")
 	cmd.Dir = repo
 	cmd.Env = append(os.Environ(), "GOFLAGS=-mod=mod", "GOPROXY=off", "GOTOOLCHAIN=local", "VERIF_REPLAY="+replayPath,
 		"PATH=/opt/veriftools/go1.26.8/bin:"+os.Getenv("PATH"))
